@@ -2,7 +2,7 @@
    Print Assumptions.  [reachable c s]: s is reached from the empty queue by ANY finite sequence of atomic
    sections (labels) of any number of producers, consumers, completions, cancellations and a shutdown —
    i.e. every interleaving; sizes are arbitrary integers (in-memory) / arbitrary non-negative (persistent). *)
-From Verif Require Import Common.Base C02.Model C02.Proofs C02.Proofs2 C02.Proofs3 C02.Proofs4 C02.Proofs5 C02.Proofs6 C02.Proofs7.
+From Verif Require Import Common.Base C02.Model C02.Proofs C02.Proofs2 C02.Proofs3 C02.Proofs4 C02.Proofs5 C02.Proofs6 C02.Proofs7 C02.Proofs8.
 Local Open Scope Z_scope.
 
 (* --- reported size -------------------------------------------------------------------------------------- *)
@@ -209,7 +209,7 @@ Theorem internal_step_decreases_measure : forall c s l s' z,
 Proof.
   exact (fun c s l s' z R St Hi H =>
            conj (mu_nonneg s' (tokinv_step c s l s' z (reach_tokinv _ c s R) H))
-                (mu_decreases c s l s' z (reach_tokinv _ c s R) St Hi H)).
+                (mu_decreases c s l s' z (reach_nofault _ c s (fun l H => H) R) (reach_tokinv _ c s R) St Hi H)).
 Qed.
 
 (* RELEASED WHEN SPACE (eventuality).  S1-free reachable state of a running queue; only the queue's own threads move.
@@ -271,6 +271,30 @@ Theorem broadcast_step : forall c s s' z,
   (0 < waiting s -> tok s = true -> lock s' = BBcast /\ waiting s' = waiting s).
 Proof. exact broadcast_step_l. Qed.
 
+(* --- strengthening round: the consumer side ---------------------------------------------------------------------- *)
+(* CONSUMERS PARKED IN Read (hasMoreElements, a sync.Cond: Signal wakes the longest-waiting consumer, Shutdown
+   broadcasts).  In every reachable state: while some consumer is parked un-signalled, every queued request has a
+   signalled consumer on its way (#queued <= #signalled); once the queue is stopped nobody is parked un-signalled;
+   a signalled consumer can always take its next step when the mutex is free (and that step decreases mu);
+   Shutdown leaves no consumer un-signalled. *)
+Theorem consumer_no_lost_wakeup : forall c s,
+  reachable c s ->
+  (0 < ccount false (cons s) -> Z.of_nat (length (items s)) <= ccount true (cons s)) /\
+  (stopped s = true -> ccount false (cons s) = 0) /\
+  (forall k, cfind k (cons s) = Some true -> lock s = Free ->
+     exists s' z, step c s (LCWake k) = Some (s', z) /\ mu s' < mu s \/ stopped s = true) /\
+  (forall s' z, step c s LShutdown = Some (s', z) -> ccount false (cons s') = 0).
+Proof. exact consumer_no_lost_wakeup_l. Qed.
+
+(* PERSISTENT QUEUE WITH UNREADABLE STORED ITEMS (storage faults are outside [reachable]; this is a statement about
+   one Read section from ANY state): whenever a Read leaves the queue empty — the last item consumed OR dropped
+   because its stored copy could not be read — the reported size is reset to 0 and a blocked producer is signalled. *)
+Theorem pq_resync_on_empty : forall c k s s' z,
+  kind c = Pers -> stopped s = false -> cread c k s = (s', z) ->
+  items s <> [] -> items s' = [] ->
+  size s' = 0 /\ (0 < waiting s -> tok s' = true).
+Proof. exact pq_resync_on_empty_l. Qed.
+
 Print Assumptions mq_size_exact.
 Print Assumptions pq_size_bounds.
 Print Assumptions offer_refused_iff.
@@ -296,3 +320,5 @@ Print Assumptions progress_while_stuck.
 Print Assumptions pool_objects_unshared.
 Print Assumptions cond_api_invariant.
 Print Assumptions broadcast_step.
+Print Assumptions consumer_no_lost_wakeup.
+Print Assumptions pq_resync_on_empty.
